@@ -684,7 +684,10 @@ def sig_facts(ctx):
     for p in paths:
         if p.status.startswith("cut"):
             seq = aops(p)
-            first_load = [i for i, x in enumerate(seq) if x[0] == "load"][0]
+            reads = [i for i, x in enumerate(seq) if x[0] in ("load", "swap") and x[1] == "stop"]
+            if not reads:
+                raise Unsupported("run() does not read the stop flag")
+            first_load = reads[0]
             waits = [i for i, x in enumerate(seq) if x[0] == "wait"]
             facts["run_init"] = [(k_, fld, v) for k_, fld, v, _ in seq[:first_load]]
             facts["run_iter"] = [(k_, fld, v) for k_, fld, v, _ in seq[first_load:waits[0] + 1] if k_ != "cb"]
@@ -811,9 +814,9 @@ def p_sig(ctx, tier):
     for it in range(iters):
         base = len(rops)
         seq = facts["run_iter"]
-        ld = [i for i, (k_, fld, v) in enumerate(seq) if k_ == "load" and fld == "stop"]
+        ld = [i for i, (k_, fld, v) in enumerate(seq) if k_ in ("load", "swap") and fld == "stop"]
         if not ld:
-            raise Unsupported("run iteration does not load stop")
+            raise Unsupported("run iteration does not read stop")
         ops_it = _sigops(seq)
         rops += ops_it
         rmarks.append({"load": base + ld[0], "wait": base + [i for i, (k_, _, _) in enumerate(seq) if k_ == "wait"][0]})
@@ -846,6 +849,20 @@ def p_sig(ctx, tier):
     if sat:
         failing.append("run_exits_without_stop_request")
         cex = cex or "\n".join(ex2.schedule(m))
+    # round 9 (seed C11-5): the same question with a STALE request, i.e. the stop flag already set when run() begins
+    # (a stop() nobody was running for, a second stop() in the last iteration of the previous run, a stop left by block_on):
+    # run() must not return Ok on it
+    ex4 = P.Execution([remote, rloop], nflags=2, flag_init=[True, False])
+    for i, mk in enumerate(rmarks):
+        for later in range(mk["load"] + 1, len(rops)):
+            ex4.s.add(z3.Implies(z3.And(ex4.executed(1, mk["load"]), ex4.ret(1, mk["load"], "val")), z3.Not(ex4.executed(1, later))))
+    exited4 = z3.Or(*[z3.And(ex4.executed(1, mk["load"]), ex4.ret(1, mk["load"], "val")) for mk in rmarks])
+    sat, m, dt = ex4.check(exited4, z3.Not(ex4.executed(0, 0)))
+    out["queries"] += 1
+    out["solver_s"] += dt
+    if sat:
+        failing.append("run_exits_on_a_stale_stop_request")
+        cex = cex or "\n".join(ex4.schedule(m))
     return {"ok": not failing, "witness": witness, "failing": sorted(set(failing)), "cex": cex,
             "detail": "wake %s; block_on init %s woken %s not-woken %s; stop %s wakeup %s; run init %s iter %s" % (
                 facts["wake"], facts["bo_init"], facts["bo_woken"], facts["bo_notwoken"], facts["stop"], facts["wakeup"],
